@@ -701,10 +701,70 @@ mod part_b {
         }
     }
 
+    /// The environment refuses to build the temporary window (the grant ioctl or the window's
+    /// mmap fails): the access must not go ahead without one. Refusing by error or by panic are
+    /// both "no access"; touching memory at the region's placeholder address is not.
+    fn window_cannot_be_built(seed: u64) {
+        let routes: [&str; 6] = ["region.write", "region.read", "slice.write", "ptr_guard_mut", "array.copy_from<u32>", "region.write_obj<u64>"];
+        for (i, name) in routes.iter().enumerate() {
+            for fail in ["grant-ioctl-fails", "window-mmap-fails"] {
+                out::case(9500 + i as u64, jobj! {"op" => format!("{} with {}", name, fail)});
+                let ex = fork::run(20, || {
+                    let mut r = Rng::new(seed, "c17w", i as u64);
+                    let rig = Rig::new(Kind::OnDemand, &mut r);
+                    let reg = rig.gm.iter().next().unwrap();
+                    let ma = MemoryRegionAddress(4096 + 72);
+                    if fail == "grant-ioctl-fails" {
+                        rig.emu.fail_next_map(1);
+                    } else {
+                        interpose::arm();
+                        interpose::fail_next_mmaps(1);
+                    }
+                    let data = [0x5au8; 32];
+                    let mut buf = [0u8; 32];
+                    let refused = match i {
+                        0 => reg.write(&data, ma).is_err(),
+                        1 => reg.read(&mut buf, ma).is_err(),
+                        2 => reg.get_slice(ma, 32).map_or(true, |s| s.write(&data, 0).is_err()),
+                        3 => {
+                            let s = reg.get_slice(ma, 32).unwrap();
+                            let g = s.ptr_guard_mut();
+                            // SAFETY: only reached if a guard was handed out; the pointer is then claimed valid.
+                            unsafe { g.as_ptr().write_volatile(1) };
+                            false
+                        }
+                        4 => {
+                            let s = reg.get_slice(ma, 32).unwrap();
+                            s.get_array_ref::<u32>(0, 8).unwrap().copy_from(&[7u32; 8]);
+                            false
+                        }
+                        _ => reg.write_obj::<u64>(0x0102030405060708, ma).is_err(),
+                    };
+                    interpose::fail_next_mmaps(0);
+                    vec![refused as u8]
+                });
+                let sig = format!("ondemand/window-cannot-be-built/{}/{}", fail, name);
+                match ex {
+                    // refused (error value) or refused (panic): no access took place
+                    Exit::Ok(p) if p.first() == Some(&1) => out::key(&format!("window-refused|{}|{}|error", name, fail), true),
+                    Exit::Panic(_) => out::key(&format!("window-refused|{}|{}|panic", name, fail), true),
+                    Exit::Ok(_) => v(&format!("{}/access-reported-success-without-a-window", sig), J::Null),
+                    Exit::Signal(sg) => v(&format!("{}/access-went-ahead-outside-any-mapping", sig), jobj! {"signal" => fork::signal_name(sg)}),
+                    other => out::note("C17/window-failure-child-inconclusive", J::dbg(&other)),
+                }
+                out::eval(1);
+                out::count("window_failure_injections", 1);
+            }
+        }
+    }
+
     pub fn run(args: &Args) {
         if !interpose::available() {
             v("harness/interposer-not-available", J::Null);
             return;
+        }
+        if args.shard().0 == 0 {
+            window_cannot_be_built(args.seed());
         }
         let nops = args.u64("ops", 30);
         let mut opcount = 0u64;
